@@ -26,6 +26,15 @@ def _np_funcs():
         "np.arange": lambda *a: np.arange(*a), "np.argmax": lambda a: int(np.argmax(a)), "np.sum": lambda a, axis=None: np.sum(a, axis=axis),
         "np.abs": lambda a: abs(a) if not isinstance(a, np.ndarray) else np.vectorize(lambda z: sp.Abs(z) if isinstance(z, sp.Basic) else abs(z), otypes=[object])(a),
         "np.where": lambda c: np.where(np.array(c, dtype=bool)), "len": len, "interp_n2": interp_n2,
+        "bool": bool, "int": int, "float": float, "abs": abs, "min": min, "max": max, "range": range, "list": list, "tuple": tuple,
+        "enumerate": enumerate, "zip": zip, "sum": sum, "any": any, "all": all, "round": round,
+        "np.zeros_like": lambda a: np.zeros_like(a), "np.ones_like": lambda a: np.ones_like(a), "np.copy": lambda a: np.copy(a),
+        "np.asarray": lambda a, **k: np.asarray(a), "np.equal": lambda a, b: np.equal(a, b), "np.less": lambda a, b: np.less(a, b),
+        "np.greater": lambda a, b: np.greater(a, b), "np.logical_and": lambda a, b: np.logical_and(a, b),
+        "np.logical_or": lambda a, b: np.logical_or(a, b), "np.logical_not": lambda a: np.logical_not(a),
+        "np.searchsorted": lambda a, v, **k: int(np.searchsorted(a, v, **k)), "np.interp": None, "np.isclose": lambda a, b, **k: np.isclose(a, b, **k),
+        "np.concatenate": lambda t, **k: np.concatenate(t, **k), "np.roll": lambda a, k_, **kw: np.roll(a, k_, **kw), "np.diff": lambda a, **k: np.diff(a, **k),
+        "np.mean": lambda a, **k: np.mean(a, **k), "np.dot": lambda a, b: np.dot(a, b), "np.trapz": lambda y, x=None, **k: np.trapz(y, x, **k),
         "np.zeros": lambda *a, **k: np.zeros(*a), "np.array": lambda a, **k: np.array(a), "np.ones": lambda *a, **k: np.ones(*a),
     }
 
@@ -109,11 +118,17 @@ class AInterp:
             return [self.ev(e, loc) for e in n.elts]
         if isinstance(n, ast.Call):
             f = dotted(n.func)
-            if f in self.funcs:
+            if f in self.funcs and self.funcs[f] is not None:
                 args = [self.ev(a, loc) for a in n.args]
                 kw = {k.arg: self.ev(k.value, loc) for k in n.keywords if k.arg}
                 return self.funcs[f](*args, **kw)
+            if isinstance(n.func, ast.Attribute) and n.func.attr in ("copy", "tolist", "ravel", "any", "all", "flatten", "item", "sum", "max", "min"):
+                base = self.ev(n.func.value, loc)
+                if isinstance(base, np.ndarray):
+                    return getattr(base, n.func.attr)(*[self.ev(a, loc) for a in n.args])
             raise Unsupported("call %s" % f)
+        if isinstance(n, ast.IfExp):
+            return self.ev(n.body, loc) if self.ev(n.test, loc) else self.ev(n.orelse, loc)
         raise Unsupported(type(n).__name__)
 
     def index(self, s, loc):
@@ -125,6 +140,10 @@ class AInterp:
         return self.ev(s, loc)
 
     def store(self, t, val, loc):
+        if isinstance(t, (ast.Tuple, ast.List)):
+            for tt, vv in zip(t.elts, val):
+                self.store(tt, vv, loc)
+            return
         if isinstance(t, ast.Name):
             loc[t.id] = val
             return
@@ -162,6 +181,26 @@ class AInterp:
                 val = self.ev(st.value, loc)
                 for t in st.targets:
                     self.store(t, val, loc)
+            elif isinstance(st, ast.AugAssign):
+                cur = self.ev(st.target, loc)
+                val = self.ev(ast.BinOp(left=ast.Constant(value=0), op=st.op, right=ast.Constant(value=0)), loc) if False else None
+                rhs = self.ev(st.value, loc)
+                op = type(st.op)
+                new = cur + rhs if op is ast.Add else cur - rhs if op is ast.Sub else cur * rhs if op is ast.Mult else cur / rhs if op is ast.Div else None
+                if new is None:
+                    raise Unsupported("augassign")
+                if isinstance(cur, np.ndarray) and isinstance(st.target, (ast.Name, ast.Attribute)):
+                    cur[...] = new
+                else:
+                    self.store(st.target, new, loc)
+            elif isinstance(st, ast.For):
+                n_it = 0
+                for item in self.ev(st.iter, loc):
+                    n_it += 1
+                    if n_it > 200:
+                        raise Unsupported("long loop")
+                    self.store(st.target, item, loc)
+                    self.run(st.body, loc)
             elif isinstance(st, ast.If):
                 if self.ev(st.test, loc):
                     self.run(st.body, loc)
